@@ -31,8 +31,8 @@ def run(prop, tier, seed):
     except AnalysisIncomplete as e:
         print('ANALYSIS-INCOMPLETE property=%s %s' % (prop, e))
         rep.notes.append('incomplete: %s' % e)
-        rep.finish(seed, cmd)
-        return 2
+        rc = rep.finish(seed, cmd)
+        return 1 if rc == 1 else 2      # violations found before the analysis stopped are still violations
     except Exception:
         print('ANALYSIS-ERROR property=%s' % prop)
         traceback.print_exc(file=sys.stdout)
